@@ -16,6 +16,7 @@ ap.add_argument("--seed", type=int, default=1)
 ap.add_argument("--worker", type=int, default=0)
 ap.add_argument("--funcs", default="")
 ap.add_argument("--files", default="")
+ap.add_argument("--check", default="", help="run this property's check instead of <prop>'s (cross-property triage); results go to mutants/<prop>@<check>.json")
 a = ap.parse_args()
 props = {json.loads(l)["id"]: json.loads(l) for l in open(os.path.join(d, "properties.jsonl")) if l.strip()}
 P = props[a.prop]
@@ -128,9 +129,9 @@ rng = random.Random(a.seed * 7919 + hash(a.prop) % 1000)
 rng.shuffle(cands)
 print("%s: %d candidate mutants in %d functions of %s" % (a.prop, len(cands), len({(c[0], c[1]) for c in cands}), files), flush=True)
 man = json.load(open(os.path.join(d, "MANIFEST.json")))
-cmd = [c for c in man["checks"] if c["property_id"] == a.prop][0]["quick_cmd"]
+cmd = [c for c in man["checks"] if c["property_id"] == (a.check or a.prop)][0]["quick_cmd"]
 os.makedirs(os.path.join(d, "mutants"), exist_ok=True)
-rp = os.path.join(d, "mutants", a.prop + ".json")
+rp = os.path.join(d, "mutants", a.prop + ("@" + a.check if a.check else "") + ".json")
 res = json.load(open(rp)) if os.path.exists(rp) else {}
 done = 0
 for f, name, ln, op, new in cands:
